@@ -30,3 +30,107 @@ pub fn viol(family: &str, index: u64, signature: impl Into<String>, what: impl I
         case,
     }
 }
+
+#[cfg(test)]
+mod tests {
+    use super::*;
+    use crate::bfs::{self, Step};
+
+    fn ctx(threads: usize) -> Ctx {
+        Ctx { tier: Tier::Quick, seed: 3, config: "test".into(), threads, only: None, only_history: None, verbose: false }
+    }
+
+    #[test]
+    fn mixed_radix_and_strings_are_bijections() {
+        let r = [3u64, 1, 4, 2];
+        let n = product(&r);
+        let mut seen = std::collections::HashSet::new();
+        for i in 0..n {
+            let d = decode(i, &r);
+            assert!(d.iter().zip(r.iter()).all(|(a, b)| a < b));
+            assert!(seen.insert(d));
+        }
+        assert_eq!(seen.len() as u64, n);
+        let total = strings_upto_count(3, 4);
+        assert_eq!(total, 1 + 3 + 9 + 27 + 81);
+        let mut s = std::collections::HashSet::new();
+        for i in 0..total {
+            let x = string_at(i, 3, 4);
+            assert!(x.len() <= 4 && x.iter().all(|c| *c < 3));
+            assert!(s.insert(x));
+        }
+        assert_eq!(s.len() as u64, total);
+    }
+
+    #[test]
+    fn family_visits_every_index_once_whatever_the_thread_count() {
+        for threads in [1usize, 3, 16] {
+            let mut rep = Report::new();
+            let hits: Vec<std::sync::atomic::AtomicU32> = (0..10_000).map(|_| std::sync::atomic::AtomicU32::new(0)).collect();
+            ctx(threads).family(&mut rep, "f", "test", 10_000, true, |i, r| {
+                hits[i as usize].fetch_add(1, std::sync::atomic::Ordering::Relaxed);
+                r.count(if i % 2 == 0 { "even" } else { "odd" });
+                r.bucket(&(i % 7));
+            });
+            // the first chunk is executed twice (determinism guard), everything else once
+            let twice = hits.iter().filter(|h| h.load(std::sync::atomic::Ordering::Relaxed) == 2).count();
+            let once = hits.iter().filter(|h| h.load(std::sync::atomic::Ordering::Relaxed) == 1).count();
+            assert_eq!(once + twice, 10_000);
+            assert!(twice > 0 && twice <= 8192);
+            assert_eq!(rep.evaluations, 10_000);
+            assert_eq!(rep.hist["even"], 5_000);
+            assert_eq!(rep.buckets.len(), 7);
+        }
+    }
+
+    /// Toy system: a pair of counters modulo 5 and 7 with three actions; 35 reachable states.
+    #[test]
+    fn bfs_closes_a_known_state_space_and_reports_violations_with_shortest_histories() {
+        let mut rep = Report::new();
+        let st = bfs::run(
+            &ctx(4),
+            &mut rep,
+            bfs::Spec {
+                name: "toy",
+                description: "toy",
+                nacts: 3,
+                max_depth: 64,
+                fresh: &|| (0u32, 0u32),
+                step: &|s: &mut (u32, u32), a: usize, _c: bool| {
+                    match a {
+                        0 => s.0 = (s.0 + 1) % 5,
+                        1 => s.1 = (s.1 + 1) % 7,
+                        _ => {
+                            if s.0 == 0 {
+                                return Step::Disabled;
+                            }
+                            std::mem::swap(&mut s.0, &mut s.1);
+                            s.0 %= 5;
+                            s.1 %= 7;
+                        }
+                    }
+                    if *s == (3, 4) {
+                        return Step::Violated("toy/bad-state".into(), "reached (3,4)".into(), Json::Null);
+                    }
+                    Step::Ok
+                },
+                key: &|s: &(u32, u32)| *s,
+                label: &|a| format!("a{}", a),
+            },
+        );
+        assert!(st.closed);
+        // every state except the violating one is stored (violating transitions are not expanded)
+        assert_eq!(st.states, 34);
+        let v = rep.violations.iter().find(|v| v.signature == "toy/bad-state").expect("violation found");
+        assert_eq!(v.history.as_ref().unwrap().len(), 7, "BFS reports a shortest history");
+    }
+
+    #[test]
+    fn guard_captures_panics_with_their_site() {
+        let r: Result<(), Panicked> = guard(|| panic!("boom {}", 7));
+        let p = r.unwrap_err();
+        assert!(p.message.contains("boom 7"));
+        assert!(p.site().starts_with("src/"));
+        assert_eq!(guard(|| 41 + 1).unwrap(), 42);
+    }
+}
